@@ -71,6 +71,21 @@ STYLES = {
        "denominations where one amount is zero. Do NOT touch x/recovery, x/ethereum, x/collectives, genesis import/export "
        "code, app/ante or the gov EndBlocker, and add no in-memory caches or Go maps (earlier engineers did all of that). "
        "The effect should ideally appear only some operations or blocks after the faulty step."),
+ '10': ("Prefer one of these styles, whichever fits, and prefer functions and modules listed above that the earlier "
+       "engineers did NOT touch: (a) input validation: a ValidateBasic rule or a guard at the top of a handler removed or "
+       "weakened so that a MALFORMED message (a negative or zero amount, the same denomination or address twice, an empty "
+       "or over-long string, an out-of-range decimal, an unknown enum value) reaches code that assumes well-formed input; "
+       "(b) proposals whose voters are not the global electorate (spending-pool owners, collective owners, dApp "
+       "controllers): who may vote, which quorum and voting period apply, what happens when the owner set changes while "
+       "the proposal is open; (c) module accounts: coins sent to or from a module account by a path that should be blocked, "
+       "a module account used as beneficiary / owner / delegator, mint / burn permission of a module; (d) the less central "
+       "permission gates (councilor claim / pause / activate, polls, data registry, execution fees, token rates and "
+       "black / white lists, role creation) and the difference between holding a permission through a role and directly; "
+       "(e) behaviour at the very first block after genesis or the very first use of a module (empty stores, zero "
+       "counters, no previous proposer, no snapshot). Do NOT touch x/recovery, x/ethereum, x/collectives/keeper/abci.go, "
+       "genesis import/export code, app/ante, the gov EndBlocker or GetSigners / GetSignBytes / ValidateBasic of proposal "
+       "contents, and add no in-memory caches or Go maps (earlier engineers did all of that). The effect should ideally "
+       "appear only some operations or blocks after the faulty step."),
  '5': ("Prefer one of these styles, whichever fits: (a) arithmetic: a changed rounding direction, order of "
        "multiplication and division, integer width or sign conversion that only matters for particular magnitudes; "
        "(b) iteration: an iterator bound, prefix or pagination change that only matters when a second object with a "
